@@ -152,8 +152,11 @@ def group_pipeline(c, nprog_quick=240, nprog_thorough=15000, depth_quick=16, dep
 
 GROUP_RULE = ("API histories generated by TLC simulation of Gen_Group (pool of 5 element slots; add/sub/double/neg/set/scalar mul/mixed add/"
               "normalise/rescale/flip/encode-decode/MSM/batch helpers with every receiver-operand aliasing and pointer-list aliasing; scalar classes "
-              "0,1,2,3,r-1,r-2,(r-1)/2,2^64,2^128,2^252, GLV eigenvalue +-1, random); after EVERY call the whole pool is observed (raw coordinates, "
-              "Equal matrix, Bytes, MapToScalarField) and judged; distinct = distinct (op, slots, scalar class, pointer list) tuples")
+              "0,1,2,3,r-1,r-2,(r-1)/2,2^63,2^64-1,2^64,2^128,2^252, GLV eigenvalue +-1, single-word Montgomery forms, random; elements built from the y side "
+              "(y next to (p-1)/2 limb by limb) and from a chosen ratio x/y (next to k*r, p, 0, limb boundaries); distinguished elements in every raw representative); "
+              "private-heap batches of 0..300 pointers with six aliasing patterns, structured Z coordinates (product one) and boundary elements; a fixed sweep of "
+              "G, -G, 2G, identity, SRS[0], -SRS[0] x four raw representatives x every operation; part of the histories again on 3 CPUs; after EVERY call the whole "
+              "pool is observed (raw coordinates, Equal matrix, Bytes, MapToScalarField) and judged; distinct = distinct (op, slots, scalar class, pointer list) tuples")
 
 
 @check("C07")
@@ -204,7 +207,8 @@ def c06(c):
     c.sample_events(files, 3)
     return c.finish(rule="entry point x input class x seeded member; classes as classified by the specification from the bytes: accept, accept with y at the boundary of the sign choice ((p-1)/2, limb by limb), wrong length, x>=p, y>=p, "
                          "off curve, wrong/non-canonical y, outside the subgroup; every class must be non-empty; inputs built from x (random, boundary) and from the y side (canonical y next to (p-1)/2 limb by limb, next to p); "
-                         "every decode also into a receiver that already holds an element; distinct = distinct inputs", min_events=300)
+                         "all 81 limb patterns of x around p and 27 of y around (p-1)/2; valid encodings of the OTHER format, x || x, padded; every decode also into a receiver that already holds "
+                         "an element, and for every second input after the trusted decoders have seen the same bytes; distinct = distinct inputs", min_events=300)
 
 
 # ------------------------------------------------------------------------------------------ C20
@@ -234,7 +238,7 @@ def c20(c):
     c.exhaustive = True
     c.extra["grid"] = "n in 0..%d x m in 1..%d, complete, on the model and on the real Execute" % (bands[-1][1], bands[-1][2])
     return c.finish(rule="one event per call Execute(n, work, m) for every (n, m) of the complete grid, work function with seeded yields/sleeps, plus the default-limit form; "
-                         "distinct = distinct (n, m, form)", min_events=1000,
+                         "many simultaneous callers (2, 17, 40, 100) and re-entrant calls (1, 2, 17, 20 levels); distinct = distinct (n, m, form)", min_events=1000,
                     assumptions=["the too-early-return clause is observed on the schedules the Go runtime produced (with seeded yields and sleeps inside the work function); "
                                  "all interleavings are explored only in the PlusCal model MC_Execute (n<=5, m<=3)"])
 
